@@ -186,7 +186,8 @@ def run(ctx, factor):
         lines, oracle, addr = ["", "Disassembly of section .text:", "", "0000000000401000 <f>:"], [], 0x401000
         for _ in range(g.int(1, 6)):
             body = g.pick(["data16", "data16 data16", "data16 cs nopw 0x0(%rax,%rax,1)", "data16 data16 cs nopw 0x0(%rax,%rax,1)",
-                           "push   %rbp", "ret", "xchg   %ax,%ax", "data16 lea 0x0(%rip),%rdi"])
+                           "push   %rbp", "ret", "xchg   %ax,%ax", "data16 lea 0x0(%rip),%rdi",
+                           "data16 lea 0x2f5c(%rip),%rdi        # 3fd8 <tls_var@@Base+0x3fd8>", "data16 call 401020 <__tls_get_addr@plt>"])
             nb = g.int(1, 7)
             lines.append("  %x:\t%s\t%s" % (addr, ("66 " * nb).ljust(21), body))
             rest = body.replace("data16 ", "")
